@@ -1,9 +1,10 @@
 #!/bin/bash
 # usage: tools/try_seed_copy.sh <seed id> <check args...>  -- runs a check against a private copy of /repo with the seeded change applied (/repo is untouched)
 S=$1; shift
+P=/verif/seeded/$S/patch.diff; if [ -f "$S" ]; then P=$(readlink -f "$S"); S=$(basename "$S" .diff); fi
 C=/tmp/repo-try-$S; rm -rf $C; mkdir -p $C
 (cd /repo && git archive HEAD | tar -x -C $C && cp Cargo.lock $C/)
-(cd $C && git init -q && git add -A && git -c user.email=a@b -c user.name=x commit -qm base && git apply /verif/seeded/$S/patch.diff) || { echo "patch does not apply"; exit 3; }
+(cd $C && git init -q && git add -A && git -c user.email=a@b -c user.name=x commit -qm base && git apply $P) || { echo "patch does not apply"; exit 3; }
 cd /verif; VERIF_REPO=$C VERIF_WORK=/verif/.work-try-$S ./check "$@" --no-evidence; rc=$?
 rm -rf $C /verif/.work-try-$S
 echo "exit=$rc"
